@@ -70,6 +70,10 @@ def work_prefix(h, cases):
 def run(pid, tier, families, t0, extra_assume=(), level="model_checking", strict=True, worker=None, rule=None,
         text=None, worker_for=None, after=None):
     rep = C.Reporter(pid)
+    if pid != "C01":
+        # the recorded deviations of the VM from the reference (C01's findings) surface in every check that
+        # replays Gen programs; they are the same findings, not new ones
+        rep.findings += [f for f in C.load_findings("C01") if str(f.get("key", "")).startswith("dev:")]
     hp = C.ensure_harness()
     gd = C.gen_dir(pid.lower())
     mod = P.write_mc_module(gd)
